@@ -778,7 +778,7 @@ static int _parse_inline(qaconf_t *qaconf, FILE *fp, uint8_t flags,
             DEBUG("  argv[%d]=%s", cbdata->argc - 1, wp1);
 
             // For quoted string, this case can be happened.
-            if (*wp2 == '\0') {
+            if (doneparsing == false && *wp2 == '\0') {
                 doneparsing = true;
             }
         }
